@@ -3,6 +3,8 @@ namespace MaddyVerif.Expect.FuncSkelC18
 
 /-- (declaration, fingerprint of its normalised text): comments, layout, local names and log/trace statements do not count -/
 def funcs : List (String × String) := [
+  ("framework/module/msgmetadata.go:MsgMetadata.DeepCopy", "c0d2cd14145168fe"),
+  ("framework/module/msgmetadata.go:type MsgMetadata", "35edae60b069bca5"),
   ("internal/dsn/dsn.go:GenerateDSN", "cafaf64ea3d645c5"),
   ("internal/dsn/dsn.go:RecipientInfo.WriteTo", "d9fd7d637aa8aaeb"),
   ("internal/dsn/dsn.go:ReportingMTAInfo.WriteTo", "77fbdf28a15ed64c"),
@@ -13,7 +15,10 @@ def funcs : List (String × String) := [
   ("internal/dsn/dsn.go:writeHeader", "f4d399f446a887e0"),
   ("internal/dsn/dsn.go:writeHumanReadablePart", "17b9a08d4f6d92e6"),
   ("internal/dsn/dsn.go:writeMachineReadablePart", "17ff9620a7504ce3"),
+  ("internal/target/queue/queue.go:Queue.Start", "a3de4613def4b988"),
+  ("internal/target/queue/queue.go:Queue.deliver", "f9c76cc6fc51885f"),
   ("internal/target/queue/queue.go:Queue.emitDSN", "1e8fbe65a4db35c1"),
+  ("internal/target/queue/queue.go:Queue.tryDelivery", "91d36a51cc7d0be5"),
   ("internal/target/queue/queue.go:toSMTPErr", "22651b4e75b94c9a")
 ]
 
